@@ -377,7 +377,7 @@ class EofRun:
 
 def run(repo: Repo) -> Result:
     res = Result(PID)
-    res.rules = ["C09-PROGRESS", "C09-EOF", "C09-GUARDS", "C09-CYCLES", "C09-BUDGET"]
+    res.rules = ["C09-PROGRESS", "C09-EOF", "C09-GUARDS", "C09-CYCLES", "C09-BUDGET", "C09-EXTENDS"]
     res.explanation = "termination argument decided on source: finite token list + progress on every back edge + exit at end of stream; depth guards on every call-graph cycle; worst-case frame count against the interpreter's recursion limit"
     res.assumptions = [
         "TokenStream holds a finite list and next() only ever advances (checked: C09-GUARDS stream shape)",
@@ -788,6 +788,12 @@ def run(repo: Repo) -> Result:
             env.file,
             env.node.lineno,
         )
+    # ---- C09-EXTENDS: the two render-time `while` loops (walks up an extends chain) -----------
+    # They consume no token stream; they terminate because every step loads a parent whose name
+    # was not seen before (finite template set) — decided by the seen-set rule shared with C18.
+    from .c18 import check_extends_cycle
+
+    check_extends_cycle(repo, res, "C09-EXTENDS")
     res.stats.update(parse_time_loops=n_loops, call_graph_cycles=n_cyc, dynamic_render_calls=n_dyn, resolved_calls=cg.resolved, unresolved_calls=cg.unresolved)
     return res
 
